@@ -348,6 +348,7 @@ extern "C" {
 # define BFLAG_STOP_BEAST        (1 << 2)
 # define BFLAG_KEEP_PEER_CERTS    (1 << 3) /* Keep peer cert chain. */
 # define BFLAG_KEEP_PEER_CERT_DER (1 << 4) /* Keep raw DER of peer certs. */
+# define BFLAG_CCS_RECVD         (1 << 5) /* Peer's ChangeCipherSpec seen, its Finished not yet */
 
 
 /*
